@@ -11,6 +11,14 @@ func init() {
 			if i%4 == 1 { // L0->L0 heavy
 				p.wFlush, p.wL0L0, p.wCompact, p.wModify, p.wCommit = 20, 8, 1, 20, 12
 			}
+			if i%4 == 3 {
+				// the same key@version written again (managed write batches) with a flush in between:
+				// two level-0 tables hold it, the newer table's copy is the one reads return, and the
+				// compaction of both must keep that one (no L0->L0 here: that is finding F8)
+				p.managed, p.monotone, p.dupVersions = true, true, true
+				p.wBatch, p.wFlush, p.wCompact, p.wL0L0, p.wGet = 10, 12, 6, 0, 10
+				p.keys = keySetA[:2+c.Rng.Intn(2)]
+			}
 			return p
 		})
 	})
